@@ -53,7 +53,7 @@ _COV = re.compile(r"^<(\w+) line \d+, col \d+ to line \d+, col \d+ of module (\w
 def java_cmd(workers: int | str = 1, heap: str | None = None, dfid: bool = False) -> list[str]:
     cmd = ["java", "-Xss64m", "-XX:+UseSerialGC" if str(workers) == "1" else "-XX:+UseParallelGC"]
     # without a cap every JVM may grow to a quarter of the machine's memory; eight trace shards then exhaust it
-    cmd.append(f"-Xmx{heap or ('5g' if str(workers) == '1' else '20g')}")
+    cmd.append(f"-Xmx{heap or ('4g' if str(workers) == '1' else '20g')}")
     cmd += ["-cp", f"{JAR}:{DEPS}", "tlc2.TLC"]
     return cmd
 
@@ -113,6 +113,28 @@ def run(module: str, cfg: str | Path, *, workers: int | str = 1, env: dict | Non
             shutil.rmtree(tmp, ignore_errors=True)
 
 
+def run_sharded(module: str, cfg: str, lines: list[str], *, what: str, per_shard: int = 25000, concurrent: int = 8,
+                min_shards: int = 1, timeout: int = 3600) -> list[TLCResult]:
+    """Judge ndjson trace lines with a trace module: shards of bounded size (bounded JVM heap), a few JVMs at a time."""
+    from concurrent.futures import ThreadPoolExecutor
+    WORK.mkdir(exist_ok=True)
+    tmp = Path(tempfile.mkdtemp(prefix="shards-", dir=WORK))
+    try:
+        n = max(min_shards, (len(lines) + per_shard - 1) // per_shard, 1)
+        files = []
+        for k in range(n):
+            f = tmp / f"s{k}.ndjson"
+            f.write_text("\n".join(lines[k::n]) + "\n")
+            files.append(f)
+
+        def one(f):
+            return must_ok(run(module, cfg, workers=1, env={"TRACE_FILE": str(f)}, timeout=timeout), f"{what} {f.name}")
+        with ThreadPoolExecutor(max_workers=min(concurrent, n)) as ex:
+            return list(ex.map(one, files))
+    finally:
+        shutil.rmtree(tmp, ignore_errors=True)
+
+
 def must_ok(res: TLCResult, what: str) -> TLCResult:
     if res.error or (res.returncode != 0 and not res.violated):
         raise TLCFailure(f"{what}: TLC failed (rc={res.returncode})\n{res.error}\n--- tail ---\n{res.stdout[-3000:]}")
@@ -131,9 +153,20 @@ def spec_digest(*modules: str) -> str:
     for f in sorted(list(SPEC.glob("*.tla")) + list(SPEC.glob("*.cfg"))):
         h.update(f.name.encode())
         h.update(f.read_bytes())
-    for m in modules:
-        h.update(m.encode())
-    return h.hexdigest()[:16]
+    return h.hexdigest()[:16]          # (one digest for the whole of spec/: stale cache files are recognisable by name)
+
+
+def prune_cache() -> None:
+    """Drop cached explorations of older versions of the specification (disk space is limited)."""
+    if not CACHE.exists():
+        return
+    d = spec_digest()
+    for f in CACHE.iterdir():
+        if d not in f.name:
+            try:
+                f.unlink()
+            except OSError:
+                pass
 
 
 def cached(key: str, producer):
